@@ -930,15 +930,15 @@ theorem keyInt_typed_shape (w : IntTy) (k : Bytes) (neg : Bool) (ds : Bytes) (h 
   have hq : quote k ++ 0x3a :: tl = 0x22 :: (k ++ 0x22 :: 0x3a :: tl) := by
     rw [quote_eq, hbody]; simp
   rw [hq]
-  have hsep : SepOK (0x22 :: 0x3a :: tl) := .inr ⟨0x22, _, rfl, .inr (.inr (.inr rfl))⟩
+  have hsep : SepOK (0x22 :: 0x3a :: tl) := .inr ⟨0x22, _, rfl, .inr (.inr (.inr (.inl rfl)))⟩
   -- through `agree_int` on the number whose text the key is
-  have viaNum : ∀ (v : JV) (hv : VOK v) (hT : T ext v = k) (b : UInt8) (R : Bytes) (hbR : k ++ 0x22 :: 0x3a :: tl = b :: R)
+  have viaNum : ∀ (v : JV) (hv : VOK v) (hnf : ∀ b, v ≠ .num (.float b)) (hT : T ext v = k) (b : UInt8) (R : Bytes) (hbR : k ++ 0x22 :: 0x3a :: tl = b :: R)
       (hb : isNumStart b = true),
       match FromValue.fromValue {} {} (.int w) v with
       | .ok a => keyInt env w (0x22 :: (k ++ 0x22 :: 0x3a :: tl)) pos = .ok a (0x3a :: tl) (pos + (quote k).length)
       | .error _ => ∀ x r p, keyInt env w (0x22 :: (k ++ 0x22 :: 0x3a :: tl)) pos ≠ .ok x r p := by
-    intro v hv hT b R hbR hb
-    have hag := agree_int ext hext hflt {} rfl {} w v hv (0x22 :: 0x3a :: tl) (pos + 1) hsep
+    intro v hv hnf hT b R hbR hb
+    have hag := agree_int ext hext hflt {} rfl {} w v hv (fun b hb => absurd hb (hnf b)) (0x22 :: 0x3a :: tl) (pos + 1) hsep
     rw [hT] at hag
     rw [hbR, keyInt_unfold w b R pos hb, ← hbR]
     cases hfv : FromValue.fromValue {} {} (.int w) v with
@@ -958,7 +958,7 @@ theorem keyInt_typed_shape (w : IntTy) (k : Bytes) (neg : Bool) (ds : Bytes) (h 
   | false =>
     simp only [Bool.false_eq_true, if_false, List.nil_append] at hk
     have hT : T ext (.num (.pos n)) = k := by rw [T_pos ext hext, hnd, hk]
-    have := viaNum (.num (.pos n)) ⟨rfl, rfl⟩ hT c (r ++ 0x22 :: 0x3a :: tl) (by rw [hk, hds]; rfl)
+    have := viaNum (.num (.pos n)) rfl (fun b h => by cases h) hT c (r ++ 0x22 :: 0x3a :: tl) (by rw [hk, hds]; rfl)
       (by simp [isNumStart, gdigit_eq c ▸ hcd])
     have e : FromValue.fromValue {} {} (.int w) (.num (.pos n)) = FromValue.visitInt w n := by
       simp [FromValue.fromValue, FromValue.deInt, FromValue.numberInt]
@@ -1022,7 +1022,7 @@ theorem keyInt_typed_shape (w : IntTy) (k : Bytes) (neg : Bool) (ds : Bytes) (h 
         rw [T_neg ext hext _ hi, hk]
         have : (-(n : Int)).natAbs = n := by omega
         rw [this, hnd]
-      have := viaNum (.num (.neg (-(n : Int)))) ⟨by simp [shapeW, wfNumW]; omega, rfl⟩ hT 0x2d (ds ++ 0x22 :: 0x3a :: tl) (by rw [hk]; rfl)
+      have := viaNum (.num (.neg (-(n : Int)))) (by simp [VOK, shapeW, wfNumW]; omega) (fun b h => by cases h) hT 0x2d (ds ++ 0x22 :: 0x3a :: tl) (by rw [hk]; rfl)
         (by decide)
       have e : FromValue.fromValue {} {} (.int w) (.num (.neg (-(n : Int)))) = FromValue.visitInt w (-(n : Int)) := by
         simp [FromValue.fromValue, FromValue.deInt, FromValue.numberInt]
